@@ -71,6 +71,12 @@ def run(ctx):
         role = 'client' if i % 3 == 2 else 'server'
         banner = rng.choice([b'SSH-2.0-OpenSSH_8.9p1 Ubuntu-3', b'SSH-2.0-dropbear_2022.83', b'SSH-2.0-libssh_0.9.6', b'SSH-2.0-Weird_Soft-1.0 with  comments', b'SSH-2.0-PuTTY_Release_0.78'])
         cases.append({'kind': kind, 'role': role, 'banner': banner, 'lists': gen_lists(g, rng, kind), 'opts': OPTS[i % len(OPTS)], 'port': None})
+    # every database name at least once, whatever the seed: entries differ in shape (bare `[[]]` entries, entries with and without a version, with 1-4 components),
+    # and what is printed for a name must not depend on that shape
+    allnames = {c: [(n[:-1] + inproc.GSS_SUFFIXES[j % len(inproc.GSS_SUFFIXES)] if n.endswith('-*') else n).encode() for j, n in enumerate(g.names[c])] for c in ('kex', 'key', 'enc', 'mac')}
+    for role, opts in (('server', ['-n']), ('server', ['-j']), ('server', ['-n', '-v']), ('client', ['-n', '-b']), ('client', ['-jj'])):
+        cases.append({'kind': 'all-db', 'role': role, 'banner': b'SSH-2.0-OpenSSH_8.9p1', 'opts': opts, 'port': None,
+                      'lists': {'kex': list(allnames['kex']), 'key': list(allnames['key']), 'enc': list(allnames['enc']), 'mac': list(allnames['mac']), 'comp': [b'none', b'zlib@openssh.com']}})
     # probe-heavy archetypes: every follow-up phase (host-key probes over DH/ECDH and over GEX, GEX size probes) runs between parsing the
     # peer's KEXINIT and printing it; non-canonical list orders and duplicates make any in-place reordering by those phases visible
     for i, (kexs, comp) in enumerate([([b'curve25519-sha256', b'diffie-hellman-group-exchange-sha256'], [b'zlib@openssh.com', b'none']),
